@@ -49,6 +49,11 @@ pub fn is_known(v: &Violation) -> bool {
         .unwrap_or(false)
 }
 
+/// The listed finding (its class pattern) that covers `class`, if any.
+pub fn matching_pattern(class: &str) -> Option<String> {
+    FINDINGS.get().and_then(|l| l.iter().find(|f| f.status == "open" && class_matches(&f.class, class)).map(|f| f.class.clone()))
+}
+
 fn class_matches(pattern: &str, class: &str) -> bool {
     match pattern.split_once('*') {
         None => pattern == class,
